@@ -912,9 +912,10 @@ func (e *Engine) ReplaceDocuments(ctx context.Context, username string, query *p
 			return nil, err
 		}
 
-		newDoc, err := structpb.NewStruct(doc.AsMap())
-		if err != nil {
-			return nil, err
+		// a deep copy: going through AsMap would turn non-finite numbers into strings
+		newDoc := proto.Clone(doc).(*structpb.Struct)
+		if newDoc.Fields == nil {
+			newDoc.Fields = make(map[string]*structpb.Value)
 		}
 
 		if !docIDProvisioned {
